@@ -71,14 +71,33 @@ def structure_cases(ctx):
                 o = 0.0
             return (geo.snap(a.x + rng.gauss(0, 0.4)), geo.snap(a.y + rng.gauss(0, 0.4)), geo.snap(a.z + rng.gauss(0, 0.4)), o)
         yield (name, "occupancy", geo.rebuild(s3, occ))
+        # insertion-code siblings: a copy of a residue with the same chain and number but insertion code A (or B after A),
+        # shifted by 0.9 A so that the two residues clash: they are different residues for every option
+        yield (name, "icode-siblings", icode_siblings(s3, rng))
         # planted close contacts: squeeze the structure
         k = rng.choice([0.55, 0.7])
         yield (name, "squeezed", geo.rebuild(s3, lambda res, a: (geo.snap(a.x * k), geo.snap(a.y * k), geo.snap(a.z * k), rng.choice([0.5, 0.5, 1.0, a.occupancy]))))
 
 
+def icode_siblings(s3, rng):
+    import dataclasses
+    from rnapolis.tertiary import Structure3D
+    residues = []
+    picks = set(rng.sample(range(len(s3.residues)), min(4, len(s3.residues))))
+    for i, r in enumerate(s3.residues):
+        residues.append(r)
+        if i in picks and r.auth is not None:
+            ic = "A" if not r.auth.icode else chr(ord(r.auth.icode[0]) + 1)
+            auth = dataclasses.replace(r.auth, icode=ic)
+            occ = rng.choice([0.5, 1.0, 0.5])
+            atoms = tuple(dataclasses.replace(a, x=geo.snap(a.x + 0.9), auth=auth, occupancy=occ) for a in r.atoms)
+            residues.append(dataclasses.replace(r, auth=auth, atoms=atoms))
+    return Structure3D(residues)
+
+
 def run(ctx):
     from rnapolis.clashfinder import find_clashes
-    ctx.coverage["rule"] = ("corpus structures (grid-snapped), jittered, squeezed (planted close contacts), with partial/absent/zero occupancies, each under all 32 "
+    ctx.coverage["rule"] = ("corpus structures (grid-snapped), jittered, squeezed (planted close contacts), with partial/absent/zero occupancies, with insertion-code siblings (same chain and number) in contact, each under all 32 "
                             "option combinations, against the O(n^2) enumeration of the Coq model; CLI text and CSV parsed. "
                             "Non-trivial = >= 1 candidate pair within the query radius; distinct by (structure, option set).")
     corr_expr, corr_exp, corr_case = [], [], []
